@@ -283,6 +283,8 @@ package standard
 
 //@ func (*Service).ExportSlashingProtection
 //@ reveal rowPropOk rowPropL rowAttOk rowAttS rowAttT
+//@ focus akey : range
+//@ focus pkey : range
 //@ requires s != nil && s.store != nil
 //@ ensures [records] result1 == nil ==> result0 != nil && (forall k [48]byte :: k in result0 ==> result0[k] != nil && allocated(result0[k]) && result0[k].HighestProposedSlot == wmPropL(bytes(k)) && result0[k].HighestAttestedSourceEpoch == wmAttS(bytes(k)) && result0[k].HighestAttestedTargetEpoch == wmAttT(bytes(k)))
 //@ ensures [absent] result1 == nil ==> (forall k [48]byte :: !(k in result0) ==> wmPropL(bytes(k)) == 0 - 1 && wmAttS(bytes(k)) == 0 - 1 && wmAttT(bytes(k)) == 0 - 1)
